@@ -10,7 +10,6 @@ import (
 	"github.com/rs/zerolog"
 	"pgregory.net/rapid"
 	"verif/harness/ev"
-	"verif/harness/jsonref"
 	"verif/harness/lp"
 )
 
@@ -120,21 +119,8 @@ func check(t interface{ Fatalf(string, ...interface{}) }, name string, p *lp.Pro
 			// loggers: metamorphic reference = the same event through its own derivation path
 			// alone (siblings and other events removed). A bad line that no isolated run
 			// reproduces byte for byte is an independence violation.
-			alone := map[string]bool{}
-			for j := range p.Events {
-				r := lp.Run(lp.Isolate(p, j))
-				for _, d := range r.Dests {
-					for _, w := range d {
-						alone[string(w.Data)] = true
-					}
-				}
-			}
-			for _, d := range res.Dests {
-				for _, w := range d {
-					if _, err := jsonref.ValidateLine(w.Data); err != nil && !alone[string(w.Data)] {
-						fail(t, name, p, fmt.Sprintf("a derived logger emitted %q, which the same event through its own derivation path alone does not emit (interference between loggers)", w.Data))
-					}
-				}
+			if bad := lp.Interference(p, res); bad != nil {
+				fail(t, name, p, fmt.Sprintf("a derived logger emitted %q, which the same event through its own derivation path alone does not emit (interference between loggers)", bad))
 			}
 			rec.Excluded("unparseable-line reproduced in isolation (C01's domain)")
 			return
